@@ -553,6 +553,17 @@ class Tdf:
 
         comment = comment if comment is not None else old_entry.comment
 
+        # make sure the new block can be added before the old one is removed:
+        # it and its comment must be encodable, and once the old entry is gone
+        # all unused slots must be at the end of the table
+        BTSString.write(256, comment)
+        newBlock._write(BytesIO())
+        remaining = [i.type for i in self.entries if i is not old_entry]
+        remaining.append(BlockType.unusedSlot)
+        firstUnused = remaining.index(BlockType.unusedSlot)
+        if any(t != BlockType.unusedSlot for t in remaining[firstUnused:]):
+            raise IOError("All unused slots must be at the end of the file")
+
         self.remove_block(newBlock.type)
         self.add_block(newBlock, comment)
 
